@@ -92,6 +92,14 @@ def gen_cache(rng, nops):
             else:
                 lines.append("clear")
     lines.append("dump")
+    if rng.random() < 0.15 and len(lines) > 6:
+        # the stratum 'clear 2^8 / 2^16 times' (an epoch or generation counter of a narrow integer type wraps around), followed
+        # by lookups of everything that was ever inserted
+        n = rng.choice([255, 256, 257, 65535, 65536, 65537])
+        classes["clear:repeated-%d" % n] += 1
+        body = lines[1:]
+        gets = [("get " + l.split(" ", 1)[1].rsplit(" ", 1)[0]) for l in body if l.startswith("ins ")]
+        lines = lines + ["clear"] * n + gets[-12:]
     return lines, {"cfg": lines[0], "classes": dict(classes)}
 
 
@@ -440,7 +448,7 @@ def run_property(pid, tier, seed, spec):
     if pid in ("C17", "C18", "C19"):
         import coqeval
         try:
-            cov["coq_cross_checked"] = coqeval.cross_check_standalone([it for it in items if it[0].startswith("gen-")], wdir, 3 if tier == "quick" else 12)
+            cov["coq_cross_checked"] = coqeval.cross_check_standalone([it for it in items if it[0].startswith("gen-")], wdir, 12 if tier == "quick" else 60)
         except Exception as e:
             cov["coq_cross_checked"] = {"checked": 0, "error": repr(e)[:300]}
         if cov["coq_cross_checked"].get("mismatch"):
